@@ -13,6 +13,29 @@ def c06Expected (kind : String) (data : Obj) : Option Str :=
   | ["unless", e] => some (if C06.flag data 0 then (if e == "1" then ['E'] else []) else ['U'])
   | _ => none
 
+/-- `case`: the body of the first `when` arm one of whose values equals the target, else the `else`
+body, else nothing — computed directly from the statement of the property (`none` when some value
+does not evaluate) -/
+def c06CaseSpec (t : Tmpl) (data : Obj) : Option Str :=
+  match t with
+  | [.case_ target arms els] =>
+    let st : Stack := (Rt.build data).layers
+    let bodyText : List Node → Option Str
+      | [] => some []
+      | [.text s] => some s
+      | _ => none
+    match target.eval st with
+    | .ok tv =>
+      let evalAll := arms.all fun (vals, _) => vals.all fun e => (e.eval st).isOk
+      if !evalAll then none else
+      match arms.find? (fun (vals, _) => vals.any fun e => match e.eval st with | .ok v => valueEq v tv | _ => false) with
+      | some (_, body) => bodyText body
+      | none => match els with
+        | some b => bodyText b
+        | none => some []
+    | _ => none
+  | _ => none
+
 def c06Op (args : List String) : String :=
   match run pRenderCase args with
   | some (c, []) =>
@@ -20,7 +43,7 @@ def c06Op (args : List String) : String :=
     let r := renderTop defaultFuel env c.tmpl c.data
     let bucket := (c.kind.splitOn ":").headD ""
     -- spec 1: structured expectation
-    let bad1 := match c06Expected c.kind c.data with
+    let bad1 := match (if bucket == "case" then c06CaseSpec c.tmpl c.data else c06Expected c.kind c.data) with
       | some s => !(c.obsTag == "ok" && c.obsPayload == xstr s)
       | none => false
     -- spec 2: a two-way conditional prints exactly one of its two markers (or fails with an error)
